@@ -272,6 +272,33 @@ def run(ctx):
                              "request whose address decodes to a different slave is delivered to the previously selected slave",
                froz[0].line if froz else 0)
 
+    # ================================================================ L7 the watchdog of the shared interconnect
+    ctx.rule("L7", "the time-out module on the shared bus synthesises a response only for a request no slave took: its timer counts "
+                   "only cycles in which a request channel is valid without ready, and the responding state is entered only on expiry "
+                   "(a response for an accepted request would be delivered twice / release the locks early)", min_sites=8)
+    for rel, cls in ((AL, "AXILiteTimeout"), (AF, "AXITimeout")):
+        fx = fx_of(ctx, rel, cls)
+        for info in fx.fsms.values():
+            name = info.alias or info.id
+            kind = "wr" if "wr" in name else ("rd" if "rd" in name else None)
+            ctx.need(kind is not None, f"{cls}: cannot tell write/read machine from `{name}`")
+            timer = f"{kind}_timer"
+            w = [a for a in fx.find(domain="comb", target=f"{timer}.wait") if a.state == (info.id, "WAIT")]
+            stalled = "(master.aw.valid & ~master.aw.ready) | (master.w.valid & ~master.w.ready)" if kind == "wr" else "master.ar.valid & ~master.ar.ready"
+            ok = len(w) == 1
+            f = None
+            if ok:
+                f = B.And(B.guard_formula(w[0].guards), B.from_expr(w[0].value))    # read on the master's own signals: nothing inlined
+                ok = B.entails(f, B.from_expr(stalled))
+            ctx.ob("L7", rel, cls, f"{kind}: the timer runs only while a request is stalled (valid & ~ready)", ok,
+                   "" if ok else f"{timer}.wait <= {w[0].v if w else '?'}: also counts cycles in which the request is accepted"
+                                 f"{' (e.g. ' + str(B.counterexample(f, B.from_expr(stalled))) + ')' if f is not None else ''}: a read/write the slave took "
+                                 f"can be answered by the watchdog as well", w[0].line if w else 0)
+            tr = [t for t in fx.trans if t.fsm == info.id and t.dst == "RESPOND"]
+            ok = bool(tr) and all(t.src == "WAIT" and B.entails(q.Inliner(fx, t).gformula(t), B.A(f"{timer}.done")) for t in tr)
+            ctx.ob("L7", rel, cls, f"{kind}: RESPOND entered only from WAIT on expiry", ok,
+                   "" if ok else f"{[(t.src, short(B.show(q.Inliner(fx, t).gformula(t)), 80)) for t in tr]}", tr[0].node if tr else 0)
+
     # ================================================================ L4
     cm = ctx.mod(AC)
     ca = cm.func("connect_axi")
